@@ -16,7 +16,7 @@ BLOCKERS = ('tau_is_all', 'all_in_dep_todo', 'all_in_dep_doing', 'tau_in_dep_tod
 
 def rule1(ctx, rep, ra=None):
     prog = ctx.prog
-    f = prog.func('dawgie.pl.schedule.next_job_batch')
+    f = prog.nfunc('dawgie.pl.schedule.next_job_batch')
     rep.analysed(f)
     with rep.rule(
         'R-C01-1',
@@ -123,19 +123,21 @@ def rule2(ctx, rep):
                 rep.analysed(op.func)
                 empty_init = op.op == 'assign' and norm(op.args[0]) in ('set()', 'dawgie.util.fifo.Unique()')
                 r.check(
-                    op.func.qname == 'dawgie.pl.schedule.next_job_batch' or empty_init,
+                    op.func.qname == 'dawgie.pl.schedule.next_job_batch'
+                    or empty_init
+                    or shared.only_called_from(cg, op.func.qname, {'dawgie.pl.schedule.next_job_batch'}),
                     f'{op.func.qname}:{norm(op.node)}',
                     op.where,
                     'growth of do/doing inside the release function (or initialisation with an empty set)',
                     f'{op.func.qname} adds to the {op.kind} set outside schedule.next_job_batch: {norm(op.node)}',
                 )
-        put = prog.func('dawgie.pl.farm._put')
-        disp = prog.func('dawgie.pl.farm.dispatch')
+        put = prog.nfunc('dawgie.pl.farm._put')
+        disp = prog.nfunc('dawgie.pl.farm.dispatch')
         rep.analysed(put, disp)
         for e in cg.callers(put.qname):
             r.instance()
             r.check(
-                e.src.qname == disp.qname and e.kind == 'direct',
+                e.kind == 'direct' and (e.src.qname == disp.qname or shared.only_called_from(cg, e.src.qname, {disp.qname})),
                 f'{e.src.qname}:calls-_put',
                 where(e.src, e.call),
                 'only farm.dispatch calls _put',
@@ -156,7 +158,9 @@ def rule2(ctx, rep):
                     tgt = shared.resolve_container(prog, fn, c.func.value)
                     if tgt in allowed:
                         r.instance()
-                        ok = c.func.attr in allowed[tgt].get(fn.qname, ())
+                        ok = c.func.attr in allowed[tgt].get(fn.qname, ()) or any(
+                            c.func.attr in okops and shared.only_called_from(cg, fn.qname, {owner}) for owner, okops in allowed[tgt].items()
+                        )
                         r.check(
                             ok,
                             f'{fn.qname}:{norm(c)}',
@@ -165,6 +169,9 @@ def rule2(ctx, rep):
                             f'{fn.qname} grows {tgt} ({norm(c)}): released-message queues may only be filled by _put / the dispatch recycling',
                         )
         # dispatch recycling sources: _cluster.extend(_reject) and _cloud.extend(_repeat) only
+        from ..inline import normalised
+
+        disp = normalised(prog, disp)  # helpers extracted from dispatch are analysed in place
         for c in disp.calls():
             if isinstance(c.func, ast.Attribute) and c.func.attr == 'extend':
                 tgt = shared.resolve_container(prog, disp, c.func.value)
@@ -212,7 +219,7 @@ def rule2(ctx, rep):
                 f'{norm(c)}: job/target of the task message do not come from the released batch (job ok={okj}, target ok={okt})',
             )
         # Hand.do is only invoked by dispatch (one worker per popped message)
-        hdo = prog.func('dawgie.pl.farm.Hand.do')
+        hdo = prog.nfunc('dawgie.pl.farm.Hand.do')
         for fn in prog.modules['dawgie.pl.farm'].funcs.values():
             pass
         for fn in prog.funcs.values():
@@ -251,7 +258,7 @@ def rule3(ctx, rep):
                 rep.analysed(op.func)
                 ok, detail = shared.rebind_keeps_working(prog, op)
                 r.check(ok, f'{op.func.qname}:{norm(op.node)[:120]}', op.where, detail, f'{op.func.qname} rebinds the queue and may drop a node that is still executing: {detail}')
-        f = prog.func('dawgie.pl.schedule.next_job_batch')
+        f = prog.nfunc('dawgie.pl.schedule.next_job_batch')
         ra = wsa.release_analysis(prog, f, atoms=('tau_is_all',))
         srcs = {prog.resolve_in(x, f) for x in ast.walk(ra['outer'].iter) if isinstance(x, (ast.Name, ast.Attribute))}
         r.instance()
@@ -282,7 +289,7 @@ def rule5(ctx, rep):
             'dawgie.pl.schedule.purge',
             'dawgie.pl.schedule.update',
         ):
-            fn = prog.func(q)
+            fn = prog.nfunc(q)
             r.instance()
             rep.analysed(fn)
             blocking = [
